@@ -15,6 +15,7 @@ ASSUMPTIONS = ["calibrated values are compared with a condition-aware bound 1e-1
                "no coefficients with a non-zero origin means the identity polynomial: x - o",
                "the raw dataset is read through the entity's private h5py handle; if that handle is unavailable the raw comparison is made through the API after clearing the calibration"]
 
+LAYER_B = ['C15']      # monitors of nixmon/passive/plugin.py run over the repository's own tests in the thorough tier
 NSHARDS = 16
 DT = ["uint8", "uint16", "uint32", "uint64", "int8", "int16", "int32", "int64", "float32", "float64"]
 
